@@ -13,6 +13,7 @@ use runner::{Engine, Opts, Tier};
 fn engine_by_name(n: &str) -> Option<Box<dyn Engine>> {
     match n {
         "sinks" => Some(Box::new(engines::sinks::Sinks)),
+        "pq" => Some(Box::new(engines::pq::Pq)),
         _ => None,
     }
 }
